@@ -97,16 +97,26 @@ class DefaultHandler(BaseHandler):
         file_list.sort()
         msg_file_name = file_list[-1]
         try:
-            with open(msg_path + msg_file_name, 'r') as fh:
-                line = None
-                for line in fh:
-                    pass
-                last = line
-                if line:
+            # the newest file can be empty (just rotated): look back for the last complete line
+            for file_name in reversed(file_list):
+                prev = last = None
+                with open(msg_path + file_name, 'r') as fh:
+                    for line in fh:
+                        prev, last = last, line
+                if last and not last.endswith('\n'):
+                    # unterminated tail left by a crash: never append to it, count it only if complete
+                    if file_name == file_list[-1]:
+                        msg_file_name = None
+                    try:
+                        json.loads(last)
+                    except ValueError:
+                        last = prev
+                if last:
                     if last.startswith('['):
                         last_seq = eval(last)[1]
                     elif last.startswith('{'):
                         last_seq = json.loads(last)['seq']
+                    break
         except OSError:
             LOG.error('Error when reading bgp message files')
         except Exception as e:
